@@ -35,6 +35,11 @@ pub fn binary<F: RawFloat, const FORMAT: u128>(num: &Number, lossy: bool) -> Ext
         exp: 0,
     };
 
+    // A zero mantissa cannot be normalized: the value is zero for any exponent.
+    if num.mantissa == 0 {
+        return fp_zero;
+    }
+
     // Normalize our mantissa for simpler results.
     let ctlz = num.mantissa.leading_zeros();
     let mantissa = num.mantissa << ctlz;
